@@ -21,6 +21,17 @@ def tdm_script(draw, tier, control=False):
     # names of the form p<digits> are reserved for p-arrays in this generator (a scalar called p12 that is later
     # declared again as an array would be passed by name where the model expects its value)
     ctx.used.update(["p0", "p1", "p2", "p3", "p7", "p12", "p007"])
+    ctx.used.update(["p4", "p5", "p9", "p10"])
+
+    def scalar():
+        # a third of the scalars is called p<digits> (names no array of this script uses): still an ordinary variable
+        free = [n_ for n_ in ["p4", "p5", "p9", "p10"] if n_ not in ctx.frozen]
+        if free and draw(st.integers(0, 2)) == 0:
+            nm_ = draw(st.sampled_from(free))
+            ctx.frozen.add(nm_)
+            return draw(S.scalar_decl(ctx, name=nm_))
+        return draw(S.scalar_decl(ctx))
+
     for pn in pnames:
         # (sometimes with bare {x} elements: the array is still a p-array and is still passed by name)
         d = draw(S.array_decl(ctx, name=pn, max_rows=draw(st.sampled_from([1, 1, 1, 3])), max_cols=5,
@@ -28,16 +39,17 @@ def tdm_script(draw, tier, control=False):
         ctx.frozen.add(pn)
         items.append(d)
         if draw(st.integers(0, 2)) == 0:
-            items.append(draw(S.scalar_decl(ctx)))
+            items.append(scalar())
     for _ in range(draw(st.integers(0, 2))):
-        nm = draw(st.sampled_from(["pa", "px1", "A", "arr", "p_1", "P0", "pp0", "p1a"]))
+        # (A<n>: the names the serialiser gives to array arguments it declares itself)
+        nm = draw(st.sampled_from(["pa", "px1", "A", "arr", "p_1", "P0", "pp0", "p1a", "A0", "A1", "A3", "A10", "A01"]))
         if nm not in ctx.used:
             items.append(draw(S.array_decl(ctx, name=nm)))
     n = draw(st.integers(1, 10 if big else 6))
     for _ in range(n):
         k = draw(st.sampled_from(["stmt", "stmt", "stmt", "pstmt", "pstmt", "loop", "scalar"]))
         if k == "scalar":
-            items.append(draw(S.scalar_decl(ctx)))
+            items.append(scalar())
         elif k == "loop":
             items.append(draw(S.for_loop(ctx, symbolic="params" if params else None)))
         elif k == "stmt":
